@@ -1,5 +1,5 @@
 """C10 — score laws and the candidate / window pre-filter (structural clauses)."""
-from ..rules import typestate, effbs, blocksize, data, guard as G, vis, summary, features
+from ..rules import typestate, effbs, blocksize, data, guard as G, vis, summary, features, beliefs
 from ..sym import Sym, strip, show, is_param, const_value
 from ..mir import callee_of
 
@@ -61,5 +61,7 @@ def run(ctx):
             ctx.guard("C10", "twins", lambda: features.twins(ctx, prog, scope='internals::compare::|position_array::', floor=8))
         ctx.guard("C10", "summaries", lambda: summary.check(ctx, prog, 'block_hash::(Index|Numeric)Windows|block_hash_[12]_(numeric_|index_)?windows|FuzzyHashCompareTarget::(is_comparison_candidate|compare)\\w*$', floor=4))
         ctx.guard("C10", "path summaries", lambda: summary.check_paths(ctx, prog, 'block_hash::(Index|Numeric)Windows|block_hash_[12]_(numeric_|index_)?windows|FuzzyHashCompareTarget::(is_comparison_candidate|compare)\\w*$', floor=16))
+        if c in ("dbg", "unsafe_dbg", "strict_dbg"):
+            ctx.guard("C10", "beliefs", lambda: beliefs.census(ctx, prog, beliefs.SCOPES["C10"][0], floor=beliefs.SCOPES["C10"][1]))
         ctx.guard("C10", "traits", lambda: vis.trait_census(ctx, prog, scope='block_hash::(Index|Numeric)Windows'))
     return ctx.finish(EXPL, ["relation beliefs are read from configurations with debug assertions on"])
